@@ -718,6 +718,7 @@ fn exec(st: &mut State, op: &str, twin: &str, out: &mut Out) {
 					st.canonical = Some((ch * bytes_per, n * bytes_per));
 					let pre = format!("bytes={} ", hex_of(&b));
 					set_file(st, b, true, &pre, twin, op, out);
+					oracle_multichannel_rejected(st, ch, n, out);
 				}
 				None => out.put("no-twin-bytes (run through ./check or tools/cmp.sh: twin_first suite)"),
 			}
@@ -1399,5 +1400,45 @@ mod tests {
 			}
 		}
 		assert_eq!(miss, 0);
+	}
+}
+
+/// C18 "malformed, truncated or unsupported files produce an error value …, never … invented samples", for the
+/// unsupported channel layouts: kira documents mono and stereo only (`FromFileError::UnsupportedChannelConfiguration`:
+/// "Only mono and stereo audio is supported"), so a valid PCM WAV with more than two channels and at least one
+/// frame has to be REFUSED with an error value (that one, or the reader's own) - loading it with channels dropped would not be "exactly the samples
+/// encoded in the file". Evaluated on the encoder's own (valid) files only; `n` = samples in the file.
+fn oracle_multichannel_rejected(st: &State, ch: usize, n: usize, out: &mut Out) {
+	if ch <= 2 || n == 0 || st.file.len() < 44 {
+		return;
+	}
+	let replay = format!("raw {}", hex_of(&st.file));
+	match load_static(&st.file) {
+		Loaded::Ok(_, frames) => out.oracle_fail(
+			"multichannel_rejected",
+			format!("{} :: a {}-channel file was loaded as {} stereo frames instead of being refused", replay, ch, frames.len()),
+		),
+		// any error value will do: Symphonia itself refuses some layouts (27, 32 channels) before kira looks at them
+		_ => {}
+	}
+	// streaming: the decoder must not deliver frames either (the error surfaces when the stream is opened or decoded)
+	let v = st.file.clone();
+	if let Ok(Ok(data)) = catch_unwind(AssertUnwindSafe(|| StreamingSoundData::from_cursor(Cursor::new(v)))) {
+		// (first decoder step: it has to decode the first packet to deliver frame 0)
+		let r = catch_unwind(AssertUnwindSafe(|| {
+			let (_sound, _handle, mut sched) = split(data).ok()?;
+			match sched.run() {
+				Ok(_) => Some(1usize),
+				Err(_) => None,
+			}
+		}));
+		if let Ok(Some(pushed)) = r {
+			if pushed > 0 {
+				out.oracle_fail(
+					"multichannel_rejected",
+					format!("{} :: the first decoder step of a {}-channel stream succeeded ({}) instead of reporting an error", replay, ch, pushed),
+				);
+			}
+		}
 	}
 }
